@@ -109,6 +109,23 @@ func (g *pgen) pickVar(depth int, avoid map[string]bool) (pat string, inst inter
 			if avoid != nil && avoid[fw.Canon(a)] {
 				continue
 			}
+			if g.o.PreBind && g.o.SubPrebound && g.used[v] == 0 && r.Intn(6) == 0 {
+				if _, have := g.in[v]; !have {
+					if _, have := g.sigma[cp]; !have {
+						// adversarial: the counterpart is pre-bound to the very number the message
+						// carries, but that number does NOT stand in the relation to the bound
+						// (soundness only: a correct matcher returns nothing here)
+						g.in[v] = violatingBoundFor(r, op, a)
+						g.in[cp] = a
+						g.sigma[v] = g.in[v]
+						g.sigma[cp] = a
+						g.used[v]++
+						g.subPre = true
+						g.feat("inequality_violated_with_prebound_counterpart")
+						return v, a, true
+					}
+				}
+			}
 			if b, have := g.in[v]; !have {
 				g.in[v] = boundFor(r, op, a)
 			} else if !relOK(op, a, b.(float64)) {
@@ -211,6 +228,23 @@ func boundFor(r *rand.Rand, op string, a float64) float64 {
 		return a - d
 	default:
 		return a + 1 + d
+	}
+}
+
+// violatingBoundFor returns a bound b such that (a op b) does NOT hold.
+func violatingBoundFor(r *rand.Rand, op string, a float64) float64 {
+	d := float64(r.Intn(3))
+	switch op {
+	case "<":
+		return a - d
+	case "<=":
+		return a - 1 - d
+	case ">":
+		return a + d
+	case ">=":
+		return a + 1 + d
+	default: // "!="
+		return a
 	}
 }
 
